@@ -701,6 +701,8 @@ def emit_grammar(g, gi, cfgset_macro="VF_CFGS"):
     ops_used = set(n.op for r in g.rules for n in r.walk())
     visited_ok = not (ops_used & {"until", "strict", "everything", "shebang"})
     sel_txt = ""
+    if getattr(g, "c07", False):
+        sel_txt += "e.c07_fn = &c07::check< R0 >; "
     if g.analyze:
         sel_txt += "e.analyze_fn = [] () -> std::size_t { return tao::pegtl::analyze< R0 >( -1 ); }; "
     if g.selectors:
@@ -748,6 +750,8 @@ EOL_POLICIES = ["lf_crlf", "lf", "cr", "crlf", "cr_crlf"]
 
 def emit_tu(grammars, cfgset=2, extra_includes=(), first_index=0, eol=0):
     out = ["// generated by vf/gen.py - do not edit", "#define VF_CFGSET %d" % cfgset]
+    if any(getattr(g, "c07", False) for g in grammars):
+        out.append("#define VF_WITH_C07 1")
     if eol:
         out.append("#define VF_EOL tao::pegtl::eol::%s" % EOL_POLICIES[eol])
         out.append("#define VF_EOL_ID %d" % eol)
